@@ -1,4 +1,5 @@
 import AFProofs.Lemmas.Persist
+import AFProofs.Lemmas.DictForm
 
 /-!
 # C08 — models survive every persistence round trip
@@ -86,5 +87,76 @@ def witness : Node Nat :=
 example : (walk (reloadDict witness 100)).map (·.2) = [100, 101, 100, 100, 101] := by decide
 example : count (reloadDict witness 100) = 2 ∧ count witness = 2 := by decide
 example : uniquePaths (reloadDict witness 100) ≠ uniquePaths witness := by decide
+
+end AF.C08
+
+namespace AF.C08
+open AF
+
+variable {V : Type}
+
+/-! ## the dictionary form itself: reader ∘ writer
+
+`AFModel/DictForm.lean` models `dict()` (writer) and `from_dict` with its `loaded_ids` (reader). The
+theorems below show that reading what was written *is* an injective renaming of the composition —
+so `dict_roundtrip` above applies to the code's own algorithm, not to an assumed one — up to the
+operand names of arithmetic priors, which the dictionary form does not record (`canonNames`;
+known finding C08-arith-names: the advertised paths *inside* arithmetic priors change). -/
+
+/-- **reader ∘ writer is a renaming of the composition** -/
+theorem dict_reader_writer_is_renaming (t : Node V) (base : Nat) :
+    dictRoundTrip t base =
+      renameIds (sigmaOf (extend { next := base } (loadOrder t))) (canonNames t) := by
+  simp [dictRoundTrip, fromDict_toDict t _ (good_init base)]
+
+/-- … and the renaming never merges two parameters -/
+theorem dict_reader_never_merges (t : Node V) (base : Nat) (i j : Nat)
+    (hi : i ∈ loadOrder t) (hj : j ∈ loadOrder t)
+    (he : sigmaOf (extend { next := base } (loadOrder t)) i =
+          sigmaOf (extend { next := base } (loadOrder t)) j) : i = j :=
+  sigmaOf_injective _ _ (good_init base) i j hi hj he
+
+mutual
+/-- a composition without arithmetic priors is read back with exactly its own names -/
+theorem canonNames_of_no_arith : ∀ (n : Node V), NoArith n → canonNames n = n
+  | .prior _, _ => by simp [canonNames]
+  | .const _, _ => by simp [canonNames]
+  | .opaque _, _ => by simp [canonNames]
+  | .model _ _ attrs, h => by simp only [NoArith] at h; simp [canonNames, canonNamesAttrs_of_no_arith attrs h]
+  | .coll attrs, h => by simp only [NoArith] at h; simp [canonNames, canonNamesAttrs_of_no_arith attrs h]
+  | .tuple attrs, h => by simp only [NoArith] at h; simp [canonNames, canonNamesAttrs_of_no_arith attrs h]
+  | .array _ attrs, h => by simp only [NoArith] at h; simp [canonNames, canonNamesAttrs_of_no_arith attrs h]
+  | .arith _ _ _ _, h => by simp [NoArith] at h
+  | .modif _ _ _, h => by simp [NoArith] at h
+theorem canonNamesAttrs_of_no_arith : ∀ (attrs : List (String × Node V)), NoArithAttrs attrs →
+    canonNamesAttrs attrs = attrs
+  | [], _ => by simp [canonNamesAttrs]
+  | (k, n) :: rest, h => by
+    simp only [NoArithAttrs] at h
+    simp [canonNamesAttrs, canonNames_of_no_arith n h.1, canonNamesAttrs_of_no_arith rest h.2]
+end
+
+/-- **Dictionary round trip, from the code's own reader and writer**: for a composition without
+arithmetic priors the reloaded model has the same paths, count and sharing, and the same values
+give the same instance. -/
+theorem dict_form_roundtrip [Inhabited V] (ops : Ops V) (t : Node V) (base : Nat) (h : NoArith t) :
+    (walk (dictRoundTrip t base)).map (·.1) = (walk t).map (·.1) ∧
+    ∀ (ρ ρ' : Nat → Inst V),
+      (∀ i, ρ' (sigmaOf (extend { next := base } (loadOrder t)) i) = ρ i) →
+      instW ops ρ' (dictRoundTrip t base) = instW ops ρ t := by
+  rw [dict_reader_writer_is_renaming, canonNames_of_no_arith t h]
+  exact ⟨paths_preserved _ t, fun ρ ρ' hρ => same_values_same_instance ops _ t ρ ρ' hρ⟩
+
+/-- with arithmetic priors the instance is still the same (operand *values* are what is evaluated):
+only the names under which the operands are advertised change -/
+theorem dict_form_instance_with_arith [Inhabited V] (ops : Ops V) (t : Node V) (base : Nat)
+    (ρ ρ' : Nat → Inst V)
+    (hρ : ∀ i, ρ' (sigmaOf (extend { next := base } (loadOrder t)) i) = ρ i) :
+    instW ops ρ' (dictRoundTrip t base) = instW ops ρ (canonNames t) := by
+  rw [dict_reader_writer_is_renaming]
+  exact same_values_same_instance ops _ _ ρ ρ' hρ
+
+example : (walk (dictRoundTrip witness 100)).map (·.2) = [100, 101, 100, 100, 101] := by decide
+example : paths (dictRoundTrip witness 100) = paths (reloadDict witness 100) := by decide
 
 end AF.C08
